@@ -4,6 +4,7 @@
 extern crate tsrun;
 
 mod gcmiri;
+mod entry;
 mod gcreplay;
 mod lifecycle;
 mod modules;
@@ -18,11 +19,12 @@ fn main() {
     let cmd = args.get(1).map(|s| s.as_str()).unwrap_or("");
     let rest: Vec<String> = args.iter().skip(2).cloned().collect();
     // keep panic messages out of stderr noise; they are caught and reported per job
-    std::panic::set_hook(Box::new(|_| {}));
+    if std::env::var_os("VRUNNER_SHOW_PANICS").is_none() { std::panic::set_hook(Box::new(|_| {})); }
     let rc = match cmd {
         "pathnorm" => pathnorm::main(&rest),
         "gcreplay" => gcreplay::main(&rest),
         "gctrace" => gctrace::main(&rest),
+        "entry" => entry::main(&rest),
         "lifecycle" => lifecycle::main(&rest),
         "prog" => prog::main(&rest),
         "modules" => modules::main(&rest),
